@@ -10,7 +10,13 @@
        i        position of the request on the connection (1, 2, ...)
        proto    10 | 11            request's HTTP version
        method   "GET" | "HEAD"
-       conn     "none" | "keepalive" | "close"   request's Connection header
+       conn     "none" | "keepalive" | "close"   what the request's Connection header
+                MEANS (RFC 7230 6.1: a comma list of case-insensitive options;
+                close wins over keep-alive), computed by the harness, not by circuits
+       spell    how it was spelled: "canon" (close / keep-alive), "title" (Close /
+                Keep-Alive), "upper", "list" (close, foo / keep-alive, foo)
+       win      what the transport accepted per send() while the response was
+                written (0 = everything; else partial accepts) - informative
        status   status the application set
        body     kind of handler result ("none", "empty", "str", "bytes", "list",
                 "big", "gen", "genWithEmpty", "genEmptyMid", "file", "stream",
@@ -31,6 +37,8 @@
        closed        the server fired close(sock) by the end of the exchange
        bodyeq        decoded body = bytes the application produced (projection,
                      decided in Python)
+       refclosed     `closed` of the same exchange on the same tree when the wish is
+                     spelled canonically (= closed for canonical spellings)
    A line with k = "end" closes the trace: i = number of exchanges, nresp =
    number of responses the decoder finds when it reads the whole connection
    output as one stream of successive messages.
@@ -42,6 +50,9 @@
        connection must really be closed);
      * closed <=> announced, where announced means Connection: close, or an
        HTTP/1.0 response without Connection: keep-alive, or close-delimited;
+     * the request's wish is what its Connection header means, however it is
+       spelled: the close / keep-alive decision is the one taken for the
+       canonical spelling of the same wish (wish_spelling);
      * a request that asks for Connection: close gets the connection closed
        ("as the request's ... keep-alive wishes require"; RFC 7230 6.6);
      * on a connection kept open the next request is answered, by the same
@@ -83,6 +94,7 @@ Allowed(ln) ==
   ELSE IF Framing(ln) # "" THEN Framing(ln)
   ELSE IF ln.closed # AnnouncedClose(ln) THEN "C15.close_mismatch"
   ELSE IF ln.conn = "close" /\ ~ln.closed THEN "C15.close_wish_ignored"
+  ELSE IF ln.closed # ln.refclosed THEN "C15.wish_spelling"
   ELSE IF ~Bodiless(ln) /\ ~ln.bodyeq THEN "C15.body_differs"
   ELSE ""
 
